@@ -14,6 +14,7 @@
 //verif:obligation C17.b filters: observations that are loopback, NAT64, relayed, of a transport inconsistent with the local address, or on a connection whose local address is not a listen address are never recorded
 //verif:obligation C17.d the real hasConsistentTransport / isRelayedAddress over multiaddrs produced by the real parser (IPv4 / IPv6 x TCP / UDP): an observed thin-waist address is consistent with the local one iff both the IP family and the transport protocol agree; addresses of different shapes never are; circuit addresses are recognised as relayed
 //verif:obligation C17.c observer grouping: two IPv4 remotes are the same observer iff their addresses are equal; two IPv6 remotes iff their first 56 bits are equal
+//verif:obligation C17.f a second connection from an observer group that already counts, repeating that group's report, changes neither the set nor the ORDER of the addresses reported (two addresses observed by two groups each; the repeat may come from any of the four groups): repeated reports never influence the ranking
 //verif:bound 3 connections, 2 observed thin-waist addresses, 1 local listen address, history length 3 (4), ActivationThresh set to 2
 //verif:stub multiaddrs are atoms: thinWaistForm / getObserver / hasConsistentTransport / isRelayedAddress hooked, manet classification substituted by symbolic flags; net.IP.String injective stub in the symbolic run (C17.c)
 //verif:outside real multiaddr parsing in the bookkeeping histories (atoms there; C17.d runs the real parser), the worker channel (observations dropped when full), NAT-type inference, inferred addresses for sibling transports
@@ -276,4 +277,34 @@ func VerifC17dConsistentTransport() {
 	for _, t := range []string{"/ip4/1.2.3.4/tcp/1/p2p/" + id + "/p2p-circuit", "/ip4/1.2.3.4/tcp/1/p2p/" + id + "/p2p-circuit/p2p/" + id, "/ip4/1.2.3.4/tcp/1/p2p-circuit/p2p/" + id} {
 		vAssert(isRelayedAddress(vC17parse(t)), "a circuit address is relayed wherever the circuit component stands")
 	}
+}
+
+// C17.f: a repeated report from an observer group that is already counted changes nothing the caller can see -
+// in particular not the order among equally observed addresses
+func VerifC17fRepeatsDoNotRank() {
+	defer vC17remove()
+	vC17install()
+	saved := ActivationThresh
+	ActivationThresh = 2
+	defer func() { ActivationThresh = saved }()
+	remotes := []ma.Multiaddr{ma.StringCast("/ip4/9.9.8.1/tcp/1"), ma.StringCast("/ip4/9.9.8.2/tcp/1"), ma.StringCast("/ip4/9.9.8.3/tcp/1"), ma.StringCast("/ip4/9.9.8.4/tcp/1"), ma.StringCast("/ip4/9.9.8.5/tcp/1")}
+	dupOf := vCase(4) // the connection whose observer opens a second connection and repeats its report
+	vC17conns = nil
+	for i := 0; i < 5; i++ {
+		g := i
+		if i == 4 {
+			g = dupOf
+		}
+		vC17conns = append(vC17conns, &vC17conn{local: vC17local, remote: remotes[i], group: g})
+	}
+	o := vC17manager([]ma.Multiaddr{vC17local})
+	// two observer groups report the first address, two others the second: equally observed
+	for i := 0; i < 4; i++ {
+		o.maybeRecordObservation(vC17conns[i], vC17obs[i/2])
+	}
+	before := o.AddrsFor(vC17local)
+	vAssert(len(before) == 2, "both addresses are reported")
+	o.maybeRecordObservation(vC17conns[4], vC17obs[dupOf/2])
+	after := o.AddrsFor(vC17local)
+	vAssert(len(after) == 2 && after[0].Equal(before[0]) && after[1].Equal(before[1]), "a repeated report from an observer group that already counts changes neither the set nor the order of the reported addresses")
 }
